@@ -49,10 +49,21 @@ def hs_signature(m):
 
 def handover_signature(c, m):
     """`h_codec handover` mismatch: the frames written behind a Hand / Shake as read by the codec."""
+    if m["what"] == "handshake_failed" and body_split(c):
+        # a Hand / Shake whose body arrives in two segments is not read as written
+        return "handshake:body_split:handshake_failed:%s" % c["role"]
     if m["what"] in ("io", "render", "handshake_failed"):
         return "handshake:handover:%s:%s" % (m["what"], c["role"])
     lost = "next_message_lost" if m["what"] in ("missing", "eof") else "stream_cut"
     return "handshake:%s:%s:%s" % ("coalesced" if c.get("coalesced") else "handover", lost, c["role"])
+
+
+def body_split(c):
+    """the plan cuts the handshake message inside its BODY (behind the 11 header bytes)"""
+    for x in c.get("cuts", []):
+        if x.get("f") == 0 and (x.get("at") in ("mid", "last") or (x.get("at") == "b" and x.get("k", 0) > 11)):
+            return True
+    return False
 
 
 def hs_what(m):
@@ -303,7 +314,7 @@ def run(tier, replay):
     mo = bg["models"]
     if mo["handover_stats"] is None:
         rep.violation("handshake:handover:harness_abort", {"kind": "abort"}, "the harness died while the codec was reading behind a handshake")
-    elif mo["handover_stats"]["executed"] < len(mo["plans"]):
+    elif mo["handover_stats"]["executed"] + mo["handover_stats"].get("not_realisable", 0) < len(mo["plans"]):
         raise ToolError("hand-over plans not executed")
     seen_ho = set()
     for m in mo["handover_out"]:
@@ -365,6 +376,8 @@ def run(tier, replay):
         "conn_model": {"states": mo["conn"].distinct, "probe_violated": mo["conn_probe"].invariant_violated},
         "handover_model": {"states": mo["handover"].distinct, "probe_violated": mo["handover_probe"].invariant_violated},
         "handover_plans_replayed": (mo["handover_stats"] or {}).get("executed", 0),
+        "handshake_message_split_point_plans": (mo["handover_stats"] or {}).get("handshake_message_split_points", 0),
+        "handover_plans_not_realisable": (mo["handover_stats"] or {}).get("not_realisable", 0),
         "handover_plans_with_handshake_message_and_next_frames_in_one_write": (mo["handover_stats"] or {}).get("coalesced_plans", 0),
         "results_read_by_codec_behind_handshakes": (mo["handover_stats"] or {}).get("results_read_behind_handshakes", 0),
         "ring_connections_replayed": ring_conns, "ring_max_outbound_initiations_on_one_object": ring_outbound,
